@@ -13,6 +13,7 @@ import (
 	"errors"
 	"fmt"
 	"io"
+	"net"
 	"sort"
 	"strings"
 	"sync"
@@ -98,24 +99,34 @@ type C15Req struct {
 	Err   string `json:"err,omitempty"` // ... with this text
 }
 
-type C15Case struct {
-	Type int `json:"type"` // index into the registry of generated plugin types
+// C15Session is one connection of the stub to a runtime: what the plugin's Configure handler
+// returns this time, the Configure request, the requests, and how the session ends.
+type C15Session struct {
 	// What the plugin's Configure handler returns (ignored by types without one).
 	CfgMask int32  `json:"cfg_mask"`
 	CfgFail bool   `json:"cfg_fail,omitempty"`
 	CfgErr  string `json:"cfg_err,omitempty"`
 	// The Configure request.
-	Config  string `json:"config,omitempty"`
-	Runtime string `json:"runtime,omitempty"`
-	Version string `json:"version,omitempty"`
-	Sync    bool   `json:"sync,omitempty"` // send a Synchronize (pods, containers of the pools) after Configure
+	Config  string   `json:"config,omitempty"`
+	Runtime string   `json:"runtime,omitempty"`
+	Version string   `json:"version,omitempty"`
+	Sync    bool     `json:"sync,omitempty"` // send a Synchronize (pods, containers of the pools) after Configure
+	Reqs    []C15Req `json:"reqs"`
+	// How the session ends: "close" = the runtime end closes the connection, "stop" = the
+	// plugin calls Stop(). (A session whose configuration failed has ended already.)
+	End string `json:"end"`
+}
+
+// C15Case: one plugin value on one stub instance, connected 1..3 times in a row.
+type C15Case struct {
+	Type     int          `json:"type"` // index into the registry of generated plugin types
+	Sessions []C15Session `json:"sessions"`
 
 	Pods    []*api.PodSandbox          `json:"pods"`
 	Ctrs    []*api.Container           `json:"ctrs"`
 	Res     []*api.LinuxResources      `json:"res"`
 	Adjusts []*api.ContainerAdjustment `json:"adjusts"`
 	Updates [][]*api.ContainerUpdate   `json:"updates"`
-	Reqs    []C15Req                   `json:"reqs"`
 }
 
 // ---- generators ---------------------------------------------------------------------------
@@ -385,23 +396,15 @@ func subsetOf(t *rapid.T, label string, m api.EventMask) api.EventMask {
 	return api.EventMask(rapid.Int32Range(0, int32(validMask)).Draw(t, label)) & m
 }
 
-func genC15(t *rapid.T) C15Case {
-	kind := rapid.SampledFrom([]string{"singleton", "complement", "full", "random", "random"}).Draw(t, "kind")
-	ids := kindIdx[kind]
-	ti := ids[rapid.IntRange(0, len(ids)-1).Draw(t, "set")]
-	if rapid.IntRange(0, 9).Draw(t, "hascfg") < 6 {
-		ti++ // the variant with a Configure method
-	}
-	ent := registry[ti]
+func genSession(t *rapid.T, ent typeEntry, c *C15Case, nsess int) C15Session {
 	impl := ent.Mask
 	unimpl := validMask &^ impl
-
-	c := C15Case{
-		Type:    ti,
+	s := C15Session{
 		Config:  rapid.OneOf(rapid.Just(""), gen.Str(), rapid.Just("logLevel: debug\nevents: [a, b]\n")).Draw(t, "config"),
 		Runtime: rapid.SampledFrom([]string{"containerd", "cri-o", "verif", ""}).Draw(t, "runtime"),
 		Version: rapid.OneOf(rapid.StringMatching(`v?[0-9]\.[0-9]{1,2}(\.[0-9])?`), rapid.Just("")).Draw(t, "version"),
 		Sync:    rapid.Bool().Draw(t, "sync"),
+		End:     rapid.SampledFrom([]string{"close", "stop"}).Draw(t, "end"),
 	}
 	if ent.HasConfigure {
 		mode := rapid.SampledFrom([]string{"zero", "zero", "subset", "subset", "subset", "impl", "extra", "extra", "raw", "error"}).Draw(t, "cfgmode")
@@ -410,54 +413,39 @@ func genC15(t *rapid.T) C15Case {
 		}
 		switch mode {
 		case "zero":
-			c.CfgMask = 0
+			s.CfgMask = 0
 		case "subset":
 			m := subsetOf(t, "cfgsubset", impl)
 			if m == 0 {
-				m = evbit(bitsOf(impl)[0])
+				b := bitsOf(impl)
+				m = evbit(b[rapid.IntRange(0, len(b)-1).Draw(t, "cfgsubsetbit")])
 			}
-			c.CfgMask = int32(m)
+			s.CfgMask = int32(m)
 		case "impl":
-			c.CfgMask = int32(impl)
+			s.CfgMask = int32(impl)
 		case "extra":
 			x := subsetOf(t, "cfgextra", unimpl)
 			if x == 0 {
 				u := bitsOf(unimpl)
 				x = evbit(u[rapid.IntRange(0, len(u)-1).Draw(t, "cfgextrabit")])
 			}
-			c.CfgMask = int32(subsetOf(t, "cfgsubset", impl) | x)
+			s.CfgMask = int32(subsetOf(t, "cfgsubset", impl) | x)
 		case "raw":
-			c.CfgMask = rapid.Int32Range(0, int32(validMask)).Draw(t, "cfgraw")
+			s.CfgMask = rapid.Int32Range(0, int32(validMask)).Draw(t, "cfgraw")
 		case "error":
-			c.CfgFail = true
-			c.CfgErr = genErrText(t)
-			c.CfgMask = int32(subsetOf(t, "cfgsubset", validMask))
+			s.CfgFail = true
+			s.CfgErr = genErrText(t)
+			s.CfgMask = int32(subsetOf(t, "cfgsubset", validMask))
 		}
 	}
 
-	np := rapid.IntRange(1, 2).Draw(t, "npods")
-	for i := 0; i < np; i++ {
-		c.Pods = append(c.Pods, genPod(t, i))
-	}
-	nc := rapid.IntRange(1, 2).Draw(t, "nctrs")
-	for i := 0; i < nc; i++ {
-		c.Ctrs = append(c.Ctrs, genCtr(t, i, c.Pods))
-	}
-	nr := rapid.IntRange(2, 3).Draw(t, "nres")
-	for i := 0; i < nr; i++ {
-		c.Res = append(c.Res, genRes(t, i))
-	}
-	na := rapid.IntRange(1, 2).Draw(t, "nadj")
-	for i := 0; i < na; i++ {
-		c.Adjusts = append(c.Adjusts, genAdjust(t))
-	}
-	nu := rapid.IntRange(1, 2).Draw(t, "nupdsets")
-	for i := 0; i < nu; i++ {
-		c.Updates = append(c.Updates, genUpdates(t, c.Ctrs))
-	}
-
+	np, nc, nr, na, nu := len(c.Pods), len(c.Ctrs), len(c.Res), len(c.Adjusts), len(c.Updates)
 	implEv, unimplEv := bitsOf(impl), bitsOf(unimpl)
-	nreq := rapid.IntRange(5, 30).Draw(t, "nreq")
+	lo, hi := 5, 30
+	if nsess > 1 { // several sessions: shorter request lists each, a similar total
+		lo, hi = 3, 14
+	}
+	nreq := rapid.IntRange(lo, hi).Draw(t, "nreq")
 	for i := 0; i < nreq; i++ {
 		var e api.Event
 		mode := rapid.SampledFrom([]string{"any", "any", "impl", "unimpl"}).Draw(t, "evmode")
@@ -486,7 +474,45 @@ func genC15(t *rapid.T) C15Case {
 			r.Fail = true
 			r.Err = genErrText(t)
 		}
-		c.Reqs = append(c.Reqs, r)
+		s.Reqs = append(s.Reqs, r)
+	}
+	return s
+}
+
+func genC15(t *rapid.T) C15Case {
+	kind := rapid.SampledFrom([]string{"singleton", "complement", "full", "random", "random"}).Draw(t, "kind")
+	ids := kindIdx[kind]
+	ti := ids[rapid.IntRange(0, len(ids)-1).Draw(t, "set")]
+	if rapid.IntRange(0, 9).Draw(t, "hascfg") < 6 {
+		ti++ // the variant with a Configure method
+	}
+	ent := registry[ti]
+	c := C15Case{Type: ti}
+
+	np := rapid.IntRange(1, 2).Draw(t, "npods")
+	for i := 0; i < np; i++ {
+		c.Pods = append(c.Pods, genPod(t, i))
+	}
+	nc := rapid.IntRange(1, 2).Draw(t, "nctrs")
+	for i := 0; i < nc; i++ {
+		c.Ctrs = append(c.Ctrs, genCtr(t, i, c.Pods))
+	}
+	nr := rapid.IntRange(2, 3).Draw(t, "nres")
+	for i := 0; i < nr; i++ {
+		c.Res = append(c.Res, genRes(t, i))
+	}
+	na := rapid.IntRange(1, 2).Draw(t, "nadj")
+	for i := 0; i < na; i++ {
+		c.Adjusts = append(c.Adjusts, genAdjust(t))
+	}
+	nu := rapid.IntRange(1, 2).Draw(t, "nupdsets")
+	for i := 0; i < nu; i++ {
+		c.Updates = append(c.Updates, genUpdates(t, c.Ctrs))
+	}
+
+	nsess := rapid.SampledFrom([]int{1, 1, 2, 2, 3}).Draw(t, "nsessions")
+	for i := 0; i < nsess; i++ {
+		c.Sessions = append(c.Sessions, genSession(t, ent, &c, nsess))
 	}
 	return c
 }
@@ -511,48 +537,100 @@ func (p *rtPeer) UpdateContainers(_ context.Context, _ *api.UpdateContainersRequ
 	return &api.UpdateContainersResponse{}, nil
 }
 
-// session is one stub connected to one raw runtime peer.
+// stubInst is the stub under test: ONE plugin value on ONE stub, (re)started once per
+// session. The first connection is handed over with WithConnection, every later Start obtains
+// its connection through the dialer (the stub forgets its connection when a session ends).
+type stubInst struct {
+	rec     *rec
+	st      stub.Stub
+	closedN chan struct{} // one token per close notification (stub.WithOnClose)
+
+	mu   sync.Mutex
+	next net.Conn // connection the next dial returns
+}
+
+func (si *stubInst) dial(string) (net.Conn, error) {
+	si.mu.Lock()
+	defer si.mu.Unlock()
+	if si.next == nil {
+		return nil, errors.New("harness: no connection prepared for this dial")
+	}
+	c := si.next
+	si.next = nil
+	return c, nil
+}
+
+// session is one connection of the stub to one raw runtime peer.
 type session struct {
-	rec      *rec
-	st       stub.Stub
+	si       *stubInst
 	plugin   api.PluginService
 	peer     *rtPeer
 	startErr chan error
-	closedC  chan struct{}
-	cleanup  func()
+	// closePeer closes the runtime end; end finishes the session (idempotent) and reports
+	// whether the stub's close notification arrived.
+	closePeer func()
+	end       func(stopFirst bool) bool
 }
 
-func newSession(ent typeEntry) (*session, error) {
+func socketPair() (local, remote net.Conn, err error) {
 	sp, err := nrinet.NewSocketPair()
 	if err != nil {
-		return nil, err
+		return nil, nil, err
 	}
-	local, err := sp.LocalConn()
+	local, err = sp.LocalConn()
 	if err != nil {
 		sp.Close()
-		return nil, err
+		return nil, nil, err
 	}
-	remote, err := sp.PeerConn()
+	remote, err = sp.PeerConn()
 	if err != nil {
 		local.Close()
 		sp.PeerClose()
+		return nil, nil, err
+	}
+	return local, remote, nil
+}
+
+// newSession connects the stub (created on first use) to a fresh raw runtime peer and starts it.
+func newSession(ent typeEntry, si *stubInst) (*session, error) {
+	local, remote, err := socketPair()
+	if err != nil {
 		return nil, err
 	}
+	if si.st == nil {
+		si.rec = &rec{}
+		si.closedN = make(chan struct{}, 64)
+		si.st, err = stub.New(ent.New(si.rec),
+			stub.WithPluginName("c15"), stub.WithPluginIdx("15"),
+			stub.WithConnection(local),
+			stub.WithDialer(si.dial),
+			stub.WithOnClose(func() {
+				select {
+				case si.closedN <- struct{}{}:
+				default:
+				}
+			}))
+		if err != nil {
+			si.st = nil
+			local.Close()
+			remote.Close()
+			return nil, fmt.Errorf("stub.New(%s): %w", ent.Name, err)
+		}
+	} else {
+		si.mu.Lock()
+		si.next = local
+		si.mu.Unlock()
+	}
 	s := &session{
-		rec:      &rec{},
+		si:       si,
 		peer:     &rtPeer{regC: make(chan *api.RegisterPluginRequest, 1)},
 		startErr: make(chan error, 1),
-		closedC:  make(chan struct{}),
 	}
-	var once sync.Once
-	s.st, err = stub.New(ent.New(s.rec),
-		stub.WithPluginName("c15"), stub.WithPluginIdx("15"),
-		stub.WithConnection(local),
-		stub.WithOnClose(func() { once.Do(func() { close(s.closedC) }) }))
-	if err != nil {
+	abort := func() {
+		si.mu.Lock()
+		si.next = nil
+		si.mu.Unlock()
 		local.Close()
-		remote.Close()
-		return nil, fmt.Errorf("stub.New(%s): %w", ent.Name, err)
 	}
 
 	// the runtime end, as pkg/adaptation/plugin.go connect()/start() builds it
@@ -560,7 +638,7 @@ func newSession(ent typeEntry) (*session, error) {
 	pconn, err := mux.Open(multiplex.PluginServiceConn)
 	if err != nil {
 		mux.Close()
-		local.Close()
+		abort()
 		return nil, err
 	}
 	rpcc := ttrpc.NewClient(pconn)
@@ -568,14 +646,14 @@ func newSession(ent typeEntry) (*session, error) {
 	if err != nil {
 		rpcc.Close()
 		mux.Close()
-		local.Close()
+		abort()
 		return nil, err
 	}
 	rpcl, err := mux.Listen(multiplex.RuntimeServiceConn)
 	if err != nil {
 		rpcc.Close()
 		mux.Close()
-		local.Close()
+		abort()
 		return nil, err
 	}
 	api.RegisterRuntimeService(rpcs, s.peer)
@@ -589,21 +667,39 @@ func newSession(ent typeEntry) (*session, error) {
 
 	startDone := make(chan struct{})
 	go func() {
-		s.startErr <- s.st.Start(context.Background())
+		s.startErr <- si.st.Start(context.Background())
 		close(startDone)
 	}()
 
-	s.cleanup = func() {
-		rpcc.Close()
-		rpcs.Close()
-		rpcl.Close()
-		mux.Close()
-		remote.Close()
-		select { // the stub notices the lost connection and shuts its side down
-		case <-s.closedC:
-		case <-time.After(3 * time.Second):
+	var closeOnce sync.Once
+	s.closePeer = func() {
+		closeOnce.Do(func() {
+			rpcc.Close()
+			rpcs.Close()
+			rpcl.Close()
+			mux.Close()
+			remote.Close()
+		})
+	}
+	ended, notified := false, false
+	s.end = func(stopFirst bool) bool {
+		if ended {
+			return notified
 		}
-		s.st.Stop()
+		ended = true
+		if stopFirst {
+			si.st.Stop()
+		}
+		s.closePeer()
+		// Every session, however it ends, makes the stub's ttrpc client go down once, and the
+		// stub reports that through its close notification. Wait for it before anything else
+		// happens to this stub, so that sessions do not overlap.
+		select {
+		case <-si.closedN:
+			notified = true
+		case <-time.After(stepTimeout):
+		}
+		si.st.Stop() // no-op when the stub has shut the session down already
 		local.Close()
 		for _, ch := range []chan struct{}{srvDone, startDone} {
 			select {
@@ -611,10 +707,10 @@ func newSession(ent typeEntry) (*session, error) {
 			case <-time.After(3 * time.Second):
 			}
 		}
+		return notified
 	}
 	return s, nil
 }
-
 func stepCtx() (context.Context, context.CancelFunc) {
 	return context.WithTimeout(context.Background(), stepTimeout)
 }
@@ -663,11 +759,19 @@ func validCase(c C15Case) string {
 	if len(c.Pods) == 0 || len(c.Ctrs) == 0 || len(c.Res) == 0 {
 		return "empty pool"
 	}
-	for _, r := range c.Reqs {
-		if r.Event < 1 || r.Event > 13 || r.Pod < 0 || r.Pod >= len(c.Pods) || r.Ctr < 0 || r.Ctr >= len(c.Ctrs) ||
-			r.Res < 0 || r.Res >= len(c.Res) || r.Ovh < 0 || r.Ovh >= len(c.Res) ||
-			r.Adj < -1 || r.Adj >= len(c.Adjusts) || r.Upd < -1 || r.Upd >= len(c.Updates) {
-			return "request index out of range"
+	if len(c.Sessions) < 1 || len(c.Sessions) > 8 {
+		return "number of sessions out of range"
+	}
+	for _, s := range c.Sessions {
+		if s.End != "close" && s.End != "stop" {
+			return "unknown session end"
+		}
+		for _, r := range s.Reqs {
+			if r.Event < 1 || r.Event > 13 || r.Pod < 0 || r.Pod >= len(c.Pods) || r.Ctr < 0 || r.Ctr >= len(c.Ctrs) ||
+				r.Res < 0 || r.Res >= len(c.Res) || r.Ovh < 0 || r.Ovh >= len(c.Res) ||
+				r.Adj < -1 || r.Adj >= len(c.Adjusts) || r.Upd < -1 || r.Upd >= len(c.Updates) {
+				return "request index out of range"
+			}
 		}
 	}
 	for _, p := range c.Pods {
@@ -731,13 +835,14 @@ func runC15(c C15Case) ev.Outcome {
 	return o
 }
 
-// cfgExpect: what the statement promises for the configuration of this case.
+// cfgExpect: what the statement promises for the configuration of one session. It depends on
+// the type and on what this session's Configure handler returns - never on earlier sessions.
 //
 //	"subscribed to exactly the events for which it implements a handler" -> implemented mask
 //	"or to the subset it asks for at configuration time"                 -> asked mask, if within the implemented one
 //	"asking for an event it cannot handle is rejected"                   -> error
 //	"when the handler fails, its error [is] returned ... unchanged"      -> the handler's text
-func cfgExpect(ent typeEntry, c C15Case) (class string, mask api.EventMask) {
+func cfgExpect(ent typeEntry, c C15Session) (class string, mask api.EventMask) {
 	asked := api.EventMask(c.CfgMask)
 	switch {
 	case !ent.HasConfigure:
@@ -755,53 +860,111 @@ func cfgExpect(ent typeEntry, c C15Case) (class string, mask api.EventMask) {
 	}
 }
 
+// caseRun is the state of one execution of a case.
+type caseRun struct {
+	c        C15Case
+	ent      typeEntry
+	si       *stubInst
+	classes  map[string]bool
+	lenient  map[string]bool
+	hist     []string
+	expected int // handler invocations judged so far
+	sawImpl  bool
+	sawUnimp bool
+	narrowed api.EventMask // union of proper non-zero subsets earlier sessions were subscribed to (classes only)
+	hadSub   bool
+}
+
+func (cr *caseRun) note(f string, a ...any) { cr.hist = append(cr.hist, fmt.Sprintf(f, a...)) }
+
+func (cr *caseRun) finish(o ev.Outcome) ev.Outcome {
+	keys := make([]string, 0, len(cr.classes))
+	for k, on := range cr.classes {
+		if on {
+			keys = append(keys, k)
+		}
+	}
+	sort.Strings(keys)
+	// primary class first
+	o.Classes = dedup(append([]string{"kind:" + cr.ent.Kind}, keys...))
+	for k := range cr.lenient {
+		o.Lenient = append(o.Lenient, k)
+	}
+	sort.Strings(o.Lenient)
+	o.History = cr.hist
+	return o
+}
+
+type verdict int
+
+const (
+	vOK verdict = iota
+	vFail
+	vSlow
+)
+
 func runC15Once(c C15Case) (out ev.Outcome, overloaded bool) {
 	ent := registry[c.Type]
-	impl := ent.Mask
-	cfgClass, wantMask := cfgExpect(ent, c)
-	classes := map[string]bool{"kind:" + ent.Kind: true, cfgClass: true}
+	cr := &caseRun{c: c, ent: ent, si: &stubInst{}, classes: map[string]bool{"kind:" + ent.Kind: true}, lenient: map[string]bool{}}
 	if ent.HasConfigure {
-		classes["hascfg:yes"] = true
+		cr.classes["hascfg:yes"] = true
 	} else {
-		classes["hascfg:no"] = true
+		cr.classes["hascfg:no"] = true
 	}
-	var hist []string
-	lenient := map[string]bool{}
-	note := func(f string, a ...any) { hist = append(hist, fmt.Sprintf(f, a...)) }
-	finish := func(o ev.Outcome) ev.Outcome {
-		keys := make([]string, 0, len(classes))
-		for k, on := range classes {
-			if on {
-				keys = append(keys, k)
-			}
+	cr.classes[fmt.Sprintf("sessions:%d", len(c.Sessions))] = true
+
+	for k := range c.Sessions {
+		s, err := newSession(ent, cr.si)
+		if err != nil {
+			// infrastructure (socketpair, fds) or stub.New refusing a generated type
+			return cr.finish(ev.Outcome{Excluded: "session setup failed: " + err.Error()}), false
 		}
-		sort.Strings(keys)
-		// primary class first
-		o.Classes = append([]string{"kind:" + ent.Kind}, keys...)
-		o.Classes = dedup(o.Classes)
-		for k := range lenient {
-			o.Lenient = append(o.Lenient, k)
+		v, msg := cr.runSession(k, s)
+		// end the session the way the case says (a failed configuration has ended it already)
+		notified := s.end(c.Sessions[k].End == "stop" && v == vOK)
+		switch v {
+		case vFail:
+			o := ev.Failf("type %s (implements %s), session %d of %d: %s", ent.Name, maskStr(ent.Mask), k+1, len(c.Sessions), msg)
+			cr.note("FAIL: %s", o.Fail)
+			return cr.finish(o), false
+		case vSlow:
+			cr.note("watchdog: %s", msg)
+			return cr.finish(ev.Outcome{}), true
 		}
-		sort.Strings(o.Lenient)
-		o.History = hist
-		return o
+		if !notified {
+			cr.note("watchdog: no close notification after session %d", k+1)
+			return cr.finish(ev.Outcome{}), true
+		}
+		cr.note("s%d ended (%s), close notification received", k+1, c.Sessions[k].End)
 	}
-	fail := func(f string, a ...any) (ev.Outcome, bool) {
-		o := ev.Failf("type %s (implements %s): "+f, append([]any{ent.Name, maskStr(impl)}, a...)...)
-		note("FAIL: %s", o.Fail)
-		return finish(o), false
-	}
-	slowOut := func(where string) (ev.Outcome, bool) {
-		note("watchdog: %s", where)
-		return finish(ev.Outcome{}), true
+	// nothing ran behind our back
+	if total := len(cr.si.rec.snapshot()); total != cr.expected {
+		o := ev.Failf("type %s (implements %s): %d handler invocations in total, want %d: %s", ent.Name, maskStr(ent.Mask), total, cr.expected, handlersOf(cr.si.rec.snapshot()))
+		cr.note("FAIL: %s", o.Fail)
+		return cr.finish(o), false
 	}
 
-	s, err := newSession(ent)
-	if err != nil {
-		// infrastructure (socketpair, fds) or stub.New refusing a generated type
-		return finish(ev.Outcome{Excluded: "session setup failed: " + err.Error()}), false
+	strict := ent.Mask != validMask
+	o := ev.Outcome{NonTrivial: strict && cr.sawImpl && cr.sawUnimp}
+	if o.NonTrivial {
+		cr.classes["nontrivial"] = true
 	}
-	defer s.cleanup()
+	return cr.finish(o), false
+}
+
+// runSession drives and judges one session (registration, configuration, requests).
+func (cr *caseRun) runSession(k int, s *session) (verdict, string) {
+	c, ent, classes, rec := cr.c, cr.ent, cr.classes, cr.si.rec
+	sc := c.Sessions[k]
+	impl := ent.Mask
+	cfgClass, wantMask := cfgExpect(ent, sc)
+	classes[cfgClass] = true
+	if k > 0 {
+		classes["restart:"+cfgClass] = true
+		classes["restart-after-end:"+c.Sessions[k-1].End] = true
+	}
+	tag := fmt.Sprintf("s%d", k+1)
+	fail := func(f string, a ...any) (verdict, string) { return vFail, fmt.Sprintf(f, a...) }
 
 	// --- registration -----------------------------------------------------------------------
 	select {
@@ -810,31 +973,37 @@ func runC15Once(c C15Case) (out ev.Outcome, overloaded bool) {
 		s.startErr <- err
 		return fail("Start returned (%v) before registering", err)
 	case <-time.After(stepTimeout):
-		return slowOut("no RegisterPlugin")
+		return vSlow, "no RegisterPlugin"
 	}
 
 	// --- configuration ------------------------------------------------------------------------
-	s.rec.script(scripted{Mask: api.EventMask(c.CfgMask), Err: cfgErr(c)})
+	var herr error
+	if sc.CfgFail {
+		herr = errors.New(sc.CfgErr)
+	}
+	rec.script(scripted{Mask: api.EventMask(sc.CfgMask), Err: herr})
+	before := len(rec.snapshot())
 	ctx, cancel := stepCtx()
 	rpl, cerr := s.plugin.Configure(ctx, &api.ConfigureRequest{
-		Config: c.Config, RuntimeName: c.Runtime, RuntimeVersion: c.Version,
+		Config: sc.Config, RuntimeName: sc.Runtime, RuntimeVersion: sc.Version,
 		RegistrationTimeout: 5000, RequestTimeout: 2000,
 	})
 	cancel()
 	if slow(cerr) {
-		return slowOut("Configure")
+		return vSlow, "Configure"
 	}
-	note("Configure(handler returns mask=%s fail=%v %q) -> events=%s err=%v", maskStr(api.EventMask(c.CfgMask)), c.CfgFail, c.CfgErr, rplMask(rpl), cerr)
+	cr.note("%s Configure(handler returns mask=%s fail=%v %q) -> events=%s err=%v", tag, maskStr(api.EventMask(sc.CfgMask)), sc.CfgFail, sc.CfgErr, rplMask(rpl), cerr)
 
 	// the Configure handler (if any) saw the request exactly once, nothing else ran
-	inv := s.rec.snapshot()
+	inv := rec.snapshot()[before:]
 	if ent.HasConfigure {
 		if len(inv) != 1 || inv[0].Handler != hConfigure {
 			return fail("Configure request invoked %s, want exactly [Configure]", handlersOf(inv))
 		}
-		if got, want := inv[0].Strs, []string{c.Config, c.Runtime, c.Version}; strings.Join(got, "\x00") != strings.Join(want, "\x00") {
+		if got, want := inv[0].Strs, []string{sc.Config, sc.Runtime, sc.Version}; strings.Join(got, "\x00") != strings.Join(want, "\x00") {
 			return fail("Configure handler got %q, the request carried %q", got, want)
 		}
+		cr.expected++
 	} else if len(inv) != 0 {
 		return fail("Configure request invoked %s on a type without Configure handler", handlersOf(inv))
 	}
@@ -843,64 +1012,74 @@ func runC15Once(c C15Case) (out ev.Outcome, overloaded bool) {
 	select {
 	case startErr = <-s.startErr:
 	case <-time.After(stepTimeout):
-		return slowOut("Start did not return after Configure")
+		return vSlow, "Start did not return after Configure"
 	}
-	note("Start -> %v", startErr)
+	cr.note("%s Start -> %v", tag, startErr)
+
+	// classes: is this a configuration the earlier sessions of this stub could have spoilt?
+	if k > 0 && cr.hadSub && (cfgClass == "cfg:default0" || cfgClass == "cfg:all-implemented" || cfgClass == "cfg:subset") {
+		classes["reconf:after-narrower-subset"] = true
+		if wantMask&^cr.narrowed != 0 {
+			classes["reconf:widens-earlier-subset"] = true
+		}
+	}
 
 	switch cfgClass {
 	case "cfg:error", "cfg:rejected":
 		if cerr == nil {
 			if cfgClass == "cfg:rejected" {
 				return fail("Configure handler asked for %s which includes unhandled %s, but the stub answered events=%s instead of rejecting",
-					maskStr(api.EventMask(c.CfgMask)), maskStr(api.EventMask(c.CfgMask)&^impl), rplMask(rpl))
+					maskStr(api.EventMask(sc.CfgMask)), maskStr(api.EventMask(sc.CfgMask)&^impl), rplMask(rpl))
 			}
-			return fail("Configure handler failed with %q but the stub answered events=%s without error", c.CfgErr, rplMask(rpl))
+			return fail("Configure handler failed with %q but the stub answered events=%s without error", sc.CfgErr, rplMask(rpl))
 		}
 		if st, ok := status.FromError(cerr); ok {
-			if cfgClass == "cfg:error" && st.Message() != c.CfgErr {
-				return fail("Configure handler failed with %q, the runtime received %q", c.CfgErr, st.Message())
+			if cfgClass == "cfg:error" && st.Message() != sc.CfgErr {
+				return fail("Configure handler failed with %q, the runtime received %q", sc.CfgErr, st.Message())
 			}
 		} else {
 			// The stub tears the connection down as soon as Start sees the failed
 			// configuration; the error response can lose that race. Still "rejected".
-			lenient[cfgClass+": error response lost to connection teardown"] = true
+			cr.lenient[cfgClass+": error response lost to connection teardown"] = true
 		}
 		if cfgClass == "cfg:rejected" && startErr == nil {
 			return fail("Configure asked for unhandled events %s and was rejected (%v) but Start returned nil",
-				maskStr(api.EventMask(c.CfgMask)&^impl), cerr)
+				maskStr(api.EventMask(sc.CfgMask)&^impl), cerr)
 		}
-		return finish(ev.Outcome{}), false
+		return vOK, "" // the session ends here; the next one starts fresh
 	}
 	if cerr != nil {
-		return fail("Configure failed (%v), want events=%s", cerr, maskStr(wantMask))
+		return fail("Configure (handler returned %s) failed (%v), want events=%s", maskStr(api.EventMask(sc.CfgMask)), cerr, maskStr(wantMask))
 	}
 	if got := api.EventMask(rpl.GetEvents()); got != wantMask {
-		return fail("Configure (handler returned %s) subscribed %s, want %s", maskStr(api.EventMask(c.CfgMask)), maskStr(got), maskStr(wantMask))
+		return fail("Configure (handler returned %s) subscribed %s, want %s", maskStr(api.EventMask(sc.CfgMask)), maskStr(got), maskStr(wantMask))
 	}
 	if startErr != nil {
 		return fail("Configure succeeded with events=%s but Start returned %v", maskStr(wantMask), startErr)
 	}
+	if cfgClass == "cfg:subset" {
+		cr.hadSub = true
+		cr.narrowed |= wantMask
+	}
 
 	// --- optional Synchronize (no generated type handles it: nothing may be invoked) -------------
-	if c.Sync {
+	if sc.Sync {
 		classes["sync:sent"] = true
-		before := len(s.rec.snapshot())
+		before := len(rec.snapshot())
 		ctx, cancel := stepCtx()
 		_, serr := s.plugin.Synchronize(ctx, &api.SynchronizeRequest{Pods: c.Pods, Containers: c.Ctrs})
 		cancel()
 		if slow(serr) {
-			return slowOut("Synchronize")
+			return vSlow, "Synchronize"
 		}
-		note("Synchronize -> err=%v", serr)
-		if extra := s.rec.snapshot()[before:]; len(extra) != 0 {
+		cr.note("%s Synchronize -> err=%v", tag, serr)
+		if extra := rec.snapshot()[before:]; len(extra) != 0 {
 			return fail("Synchronize invoked %s", handlersOf(extra))
 		}
 	}
 
 	// --- requests -----------------------------------------------------------------------------------
-	sawImpl, sawUnimpl := false, false
-	expected := len(s.rec.snapshot()) // invocations so far (Configure), all judged above
-	for i, r := range c.Reqs {
+	for i, r := range sc.Reqs {
 		e := api.Event(r.Event)
 		isImpl := impl&evbit(e) != 0
 		pod := c.Pods[r.Pod]
@@ -920,8 +1099,8 @@ func runC15Once(c C15Case) (out ev.Outcome, overloaded bool) {
 		if r.Fail {
 			herr = errors.New(r.Err)
 		}
-		s.rec.script(scripted{Adjust: adj, Updates: upd, Err: herr})
-		before := len(s.rec.snapshot())
+		rec.script(scripted{Adjust: adj, Updates: upd, Err: herr})
+		before := len(rec.snapshot())
 
 		var (
 			got, want, empty proto.Message
@@ -958,16 +1137,16 @@ func runC15Once(c C15Case) (out ev.Outcome, overloaded bool) {
 		}
 		cancel()
 		if slow(rerr) {
-			return slowOut(fmt.Sprintf("request #%d %s", i, evName(e)))
+			return vSlow, fmt.Sprintf("request #%d %s", i, evName(e))
 		}
-		inv := s.rec.snapshot()[before:]
-		note("#%d %s impl=%v scripted(fail=%v %q adj=%d upd=%d) -> invoked=%s err=%v", i, evName(e), isImpl, r.Fail, r.Err, r.Adj, r.Upd, handlersOf(inv), rerr)
+		inv := rec.snapshot()[before:]
+		cr.note("%s #%d %s impl=%v scripted(fail=%v %q adj=%d upd=%d) -> invoked=%s err=%v", tag, i, evName(e), isImpl, r.Fail, r.Err, r.Adj, r.Upd, handlersOf(inv), rerr)
 		where := fmt.Sprintf("request #%d %s", i, evName(e))
 
 		if !isImpl {
 			// "subscribed to exactly the events for which it implements a handler": an event
 			// without handler reaches nobody and the runtime gets an empty success.
-			sawUnimpl = true
+			cr.sawUnimp = true
 			classes["ev:"+evName(e)+":unimplemented"] = true
 			if len(inv) != 0 {
 				return fail("%s: the type has no handler for it, yet %s ran", where, handlersOf(inv))
@@ -980,7 +1159,7 @@ func runC15Once(c C15Case) (out ev.Outcome, overloaded bool) {
 			}
 			continue
 		}
-		sawImpl = true
+		cr.sawImpl = true
 		classes["ev:"+evName(e)+":implemented"] = true
 		if wantMask&evbit(e) == 0 {
 			// Implemented but not subscribed: the runtime filters by the mask and never sends
@@ -988,11 +1167,11 @@ func runC15Once(c C15Case) (out ev.Outcome, overloaded bool) {
 			// of the two a stub has to do, so "not delivered, empty success" is accepted too.
 			classes["ev:sent-unsubscribed"] = true
 			if len(inv) == 0 && rerr == nil && proto.Equal(got, empty) {
-				lenient["unsubscribed event not delivered"] = true
+				cr.lenient["unsubscribed event not delivered"] = true
 				continue
 			}
 		}
-		expected++
+		cr.expected++
 
 		// "delivered exactly once to the handler for that event"
 		if len(inv) != 1 || inv[0].Handler != evHandler[e] {
@@ -1009,13 +1188,13 @@ func runC15Once(c C15Case) (out ev.Outcome, overloaded bool) {
 		if len(in.Res) != len(wantRes) {
 			return fail("%s: handler got %d resource arguments, want %d", where, len(in.Res), len(wantRes))
 		}
-		for k := range wantRes {
-			if !proto.Equal(in.Res[k], wantRes[k]) {
+		for j := range wantRes {
+			if !proto.Equal(in.Res[j], wantRes[j]) {
 				name := "resources"
-				if e == api.Event_UPDATE_POD_SANDBOX && k == 0 {
+				if e == api.Event_UPDATE_POD_SANDBOX && j == 0 {
 					name = "overhead resources"
 				}
-				return fail("%s: handler got %s %s, the message carried %s", where, name, short(in.Res[k]), short(wantRes[k]))
+				return fail("%s: handler got %s %s, the message carried %s", where, name, short(in.Res[j]), short(wantRes[j]))
 			}
 		}
 		// "the handler's adjustment and updates - or, when the handler fails, its error - are
@@ -1041,26 +1220,12 @@ func runC15Once(c C15Case) (out ev.Outcome, overloaded bool) {
 			return fail("%s: handler returned %s, the runtime received %s", where, short(want), short(got))
 		}
 	}
-	// nothing ran behind our back
-	if total := len(s.rec.snapshot()); total != expected {
-		return fail("%d handler invocations in total, want %d: %s", total, expected, handlersOf(s.rec.snapshot()))
+	// nothing ran behind our back during this session
+	if total := len(rec.snapshot()); total != cr.expected {
+		return fail("%d handler invocations so far, want %d: %s", total, cr.expected, handlersOf(rec.snapshot()))
 	}
-
-	strict := impl != validMask
-	o := ev.Outcome{NonTrivial: strict && sawImpl && sawUnimpl}
-	if o.NonTrivial {
-		classes["nontrivial"] = true
-	}
-	return finish(o), false
+	return vOK, ""
 }
-
-func cfgErr(c C15Case) error {
-	if c.CfgFail {
-		return errors.New(c.CfgErr)
-	}
-	return nil
-}
-
 func rplMask(r *api.ConfigureResponse) string {
 	if r == nil {
 		return "<no response>"
@@ -1147,9 +1312,12 @@ func implementsByAssertion(p interface{}) (api.EventMask, bool) {
 }
 
 // TestExh_C15 sweeps the finite part of the domain completely: every generated type is run
-// against each of the thirteen event kinds once; the types with a Configure handler additionally
-// with the handler returning 0, exactly the implemented mask, every single implemented event,
-// and the implemented mask plus each single unimplemented event (must be rejected).
+// against each of the thirteen event kinds once (succeeding and failing handler); the types with
+// a Configure handler additionally with the handler returning 0, exactly the implemented mask,
+// every single implemented event, and the implemented mask plus each single unimplemented event
+// (must be rejected). Restart sweep: every type is connected three times in a row on one stub;
+// types with a Configure handler go through subset -> 0 -> the complementary subset, and through
+// rejected -> error -> implemented mask, so that every configuration is judged after a different one.
 func TestExh_C15(t *testing.T) {
 	r := ev.Get("C15")
 	defer r.Flush()
@@ -1172,9 +1340,21 @@ func TestExh_C15(t *testing.T) {
 
 	pod := &api.PodSandbox{Id: "pod0-exh", Name: "exh", Namespace: "default", Labels: map[string]string{"a": "b"}}
 	ctr := &api.Container{Id: "ctr0-exh", PodSandboxId: "pod0-exh", Name: "c", Env: []string{"A=1"}, Args: []string{"sleep", "1"}}
-	base := func(ti int) C15Case {
-		c := C15Case{
-			Type: ti, Config: "cfg", Runtime: "verif", Version: "1.0",
+	var okReqs, failReqs []C15Req
+	for e := int32(1); e <= 13; e++ {
+		okReqs = append(okReqs, C15Req{Event: e, Ovh: 0, Res: 1, Adj: 0, Upd: 0})
+		failReqs = append(failReqs, C15Req{Event: e, Ovh: 1, Res: 0, Adj: -1, Upd: -1, Fail: true, Err: fmt.Sprintf("exh-fail-%d", e)})
+	}
+	sess := func(mask api.EventMask, end string, reqs ...[]C15Req) C15Session {
+		s := C15Session{CfgMask: int32(mask), Config: "cfg", Runtime: "verif", Version: "1.0", End: end}
+		for _, rs := range reqs {
+			s.Reqs = append(s.Reqs, rs...)
+		}
+		return s
+	}
+	mk := func(ti int, sessions ...C15Session) C15Case {
+		return C15Case{
+			Type: ti, Sessions: sessions,
 			Pods: []*api.PodSandbox{pod}, Ctrs: []*api.Container{ctr},
 			Res: []*api.LinuxResources{
 				{Cpu: &api.LinuxCPU{Shares: &api.OptionalUInt64{Value: 7}}, Unified: map[string]string{"verif.slot": "0"}},
@@ -1183,15 +1363,8 @@ func TestExh_C15(t *testing.T) {
 			Adjusts: []*api.ContainerAdjustment{{Annotations: map[string]string{"k": "v"}, Env: []*api.KeyValue{{Key: "E", Value: "1"}}}},
 			Updates: [][]*api.ContainerUpdate{{{ContainerId: "ctr0-exh", Linux: &api.LinuxContainerUpdate{Resources: &api.LinuxResources{Pids: &api.LinuxPids{Limit: 9}}}}}},
 		}
-		for e := int32(1); e <= 13; e++ {
-			c.Reqs = append(c.Reqs, C15Req{Event: e, Ovh: 0, Res: 1, Adj: 0, Upd: 0})
-		}
-		for e := int32(1); e <= 13; e++ { // and once more, failing
-			c.Reqs = append(c.Reqs, C15Req{Event: e, Ovh: 1, Res: 0, Adj: -1, Upd: -1, Fail: true, Err: fmt.Sprintf("exh-fail-%d", e)})
-		}
-		return c
 	}
-	sessions := 0
+	sessions, cases := 0, 0
 	runOne := func(c C15Case) {
 		raw := ev.Snapshot(c)
 		r.Journal(raw)
@@ -1204,38 +1377,55 @@ func TestExh_C15(t *testing.T) {
 		}
 		o.Classes = cl
 		r.Record(raw, o)
-		sessions++
+		cases++
+		sessions += len(c.Sessions)
 		if o.Fail != "" {
 			t.Fatalf("C15 (sweep): %s", o.Fail)
 		}
+		if o.Overloaded {
+			t.Logf("C15 (sweep): overloaded case")
+		}
 	}
 	for ti, ent := range registry {
-		c := base(ti)
 		if !ent.HasConfigure {
-			runOne(c)
+			runOne(mk(ti, sess(0, "close", okReqs, failReqs)))
+			// restart: three connections of one stub, ended both ways
+			runOne(mk(ti, sess(0, "stop", okReqs), sess(0, "close", failReqs), sess(0, "stop", okReqs)))
 			continue
 		}
 		for _, m := range []api.EventMask{0, ent.Mask} {
-			c.CfgMask = int32(m)
-			runOne(c)
+			runOne(mk(ti, sess(m, "close", okReqs, failReqs)))
 		}
-		short := base(ti)
-		short.Reqs = short.Reqs[:13]
-		for _, e := range bitsOf(ent.Mask) {
+		implEv, unimplEv := bitsOf(ent.Mask), bitsOf(validMask&^ent.Mask)
+		for _, e := range implEv {
 			if evbit(e) == ent.Mask {
 				continue // singleton: done above
 			}
-			short.CfgMask = int32(evbit(e))
-			runOne(short)
+			runOne(mk(ti, sess(evbit(e), "close", okReqs)))
 		}
-		for _, e := range bitsOf(validMask &^ ent.Mask) {
-			short.CfgMask = int32(ent.Mask | evbit(e))
-			runOne(short)
+		for _, e := range unimplEv {
+			runOne(mk(ti, sess(ent.Mask|evbit(e), "close", okReqs)))
+		}
+		// restart sweep
+		fail := sess(0, "close")
+		fail.CfgFail, fail.CfgErr = true, "exh-configure-failed"
+		if len(implEv) > 1 {
+			lo := evbit(implEv[0])
+			runOne(mk(ti, sess(lo, "stop", okReqs), sess(0, "close", okReqs), sess(ent.Mask&^lo, "stop", okReqs)))
+			runOne(mk(ti, sess(ent.Mask&^lo, "close", okReqs), sess(lo, "stop", okReqs), sess(ent.Mask, "close", okReqs)))
+		} else {
+			runOne(mk(ti, sess(ent.Mask, "stop", okReqs), sess(0, "close", okReqs), sess(ent.Mask, "stop", okReqs)))
+		}
+		if len(unimplEv) > 0 {
+			runOne(mk(ti, sess(ent.Mask|evbit(unimplEv[0]), "close"), fail, sess(ent.Mask, "stop", okReqs)))
+		} else {
+			runOne(mk(ti, fail, sess(0, "stop", okReqs)))
 		}
 	}
 	r.SetExtra("exhaustive", map[string]any{
-		"subdomain": "every generated plugin type (256: 128 handler sets x with/without Configure) x each of the 13 event kinds (succeeding and failing handler); Configure returning 0, the implemented mask, each single implemented event, implemented+each single unimplemented event",
+		"subdomain": "every generated plugin type (256: 128 handler sets x with/without Configure) x each of the 13 event kinds (succeeding and failing handler); Configure returning 0, the implemented mask, each single implemented event, implemented+each single unimplemented event; per type restart sequences on one stub (3 connections; with Configure: subset -> 0 -> complementary subset, complementary subset -> subset -> implemented mask, rejected -> error -> implemented mask)",
 		"types":     len(registry),
+		"cases":     cases,
 		"sessions":  sessions,
 	})
 }
